@@ -157,6 +157,8 @@ func (e *vpEnv) parallel(n int, f func(worker int, rng *rand.Rand, c *vpCase)) {
 	wg.Wait()
 }
 
+func jsonUnmarshal(b []byte, v interface{}) error { return json.Unmarshal(b, v) }
+
 // ---------------------------------------------------------------------------------------------
 // generic accessors for abstract inputs
 
